@@ -7,7 +7,8 @@ Mirrors, as they are in the tree (after the `fix:` commit recorded in notes/C13.
 * `internal/target/remote/security.go`  : `daneDelivery.discoverTLSA`, `daneDelivery.CheckConn`,
   `daneDelivery.PrepareConn` (the lookup goroutine: a recovered panic leaves the future empty)
 * `framework/dns/dnssec.go`             : `ExtResolver.exchange` (server loop, AD sanitising),
-  `CheckCNAMEAD`, `AuthLookupCNAME`, `AuthLookupTLSA`, `isLoopback` (as the flag `Srv.loopback`)
+  `CheckCNAMEAD` (`checkCNAMEAD` over two exchanges; `checkAddr` over the A and the AAAA answer, one AD
+  bit each), `AuthLookupCNAME`, `AuthLookupTLSA`, `isLoopback` (as the flag `Srv.loopback`)
 * `internal/target/remote/connect.go`   : `remoteDelivery.connect` (the STARTTLS / retry ladder that
   produces the `tls.ConnectionState` handed to `CheckConn`), the DANE part of `attemptMX`
 
@@ -366,6 +367,54 @@ def resolverDns (T : Transport) (W : List Srv) : Option Dns :=
 (`resolverDns … = none`) happens inside the lookup goroutine, which recovers: `prepareConn none`. -/
 def resolverConn (E : Env) (T : Transport) (W : List Srv) (hs : Bool) (chain : List Cert) : CRes :=
   checkConn E true (prepareConn ((resolverDns T W).map discoverTLSA)) hs chain
+
+/-! ## The AD bit of each RRset on its own
+
+A validating resolver reports AD per ANSWER: the A answer, the AAAA answer, the CNAME answer and the
+two TLSA answers of one host each carry their own bit, and they do differ (a DNS64 resolver
+synthesises AAAA records and cannot set AD on them; `AuthLookupIPAddr` documents inconsistent AD
+between the address families). `CheckCNAMEAD` consults ONE address RRset: the A RRset when the host
+has A records, the AAAA RRset only when it has none. -/
+
+/-- what one address-type lookup (`exchange` for the A or for the AAAA question) yields as far as
+`CheckCNAMEAD` reads it: the error, or the AD bit OF THAT ANSWER and the owner name of its last address
+record compared with the question name (`.empty`: no record of the asked type) -/
+abbrev AddrAns := Except LErr (Bool × RName)
+
+/-- the same as a result of `exchange` (RCODE 0, not truncated) -/
+def AddrAns.toX : AddrAns → XRes
+  | .error e => .err e
+  | .ok (ad, rn) => .ok ⟨0, ad, false, rn, []⟩
+
+/-- `ExtResolver.CheckCNAMEAD` over the two address answers: the A answer decides when it holds an A
+record; else the AAAA answer (its error is dropped: "no address") -/
+def checkAddr (a aaaa : AddrAns) : Except LErr (Bool × RName) :=
+  match a with
+  | .error e => .error e
+  | .ok (adA, rnA) =>
+    if rnA != .empty then .ok (adA, rnA)
+    else
+      match aaaa with
+      | .error _ => .ok (false, .empty)
+      | .ok (ad6, rn6) => if rn6 != .empty then .ok (ad6, rn6) else .ok (false, .empty)
+
+/-- the answers discovery works with, one AD bit per RRset: A, AAAA, CNAME, TLSA under the canonical
+name, TLSA under the MX name -/
+structure DnsRR where
+  a : AddrAns
+  aaaa : AddrAns
+  lookupCNAME : Except LErr Bool
+  tlsaRname : TLSAAns
+  tlsaMX : TLSAAns
+
+def DnsRR.toDns (D : DnsRR) : Dns := ⟨checkAddr D.a D.aaaa, D.lookupCNAME, D.tlsaRname, D.tlsaMX⟩
+
+/-- `discoverTLSA` with `CheckCNAMEAD` unfolded into its two exchanges -/
+def discoverRR (D : DnsRR) : Except DiscErr (List Rec) := discoverTLSA D.toDns
+
+/-- `PrepareConn` + `CheckConn` over per-RRset answers -/
+def connDecisionRR (E : Env) (haveResolver : Bool) (D : DnsRR) (hs : Bool) (chain : List Cert) : CRes :=
+  checkConn E haveResolver (discoverRR D) hs chain
 
 /-! ## `connect.go`: the connection state `CheckConn` is handed
 
